@@ -168,3 +168,72 @@ pub fn cmd_rand_enc(args: &[String]) {
         writeln!(w, "{}", serde_json::to_string(&o).unwrap()).unwrap();
     }
 }
+
+/// Mutate an encoding: byte flips, small-value overwrites, truncation, extension, splice.
+pub fn mutate(r: &mut Rng, b: &mut Vec<u8>) {
+    let k = 1 + r.below(3);
+    for _ in 0..k {
+        if b.is_empty() {
+            b.push(r.next() as u8);
+            continue;
+        }
+        let i = r.below(b.len() as u64) as usize;
+        match r.below(8) {
+            0 => b[i] ^= 1 << r.below(8),
+            1 => b[i] = 0,
+            2 => b[i] = 0xff,
+            3 => b[i] = b[i].wrapping_add(1),
+            4 => b[i] = b[i].wrapping_sub(1),
+            5 => b.truncate(i),
+            6 => {
+                let n = 1 + r.below(4);
+                for _ in 0..n {
+                    b.push(if r.chance(1, 2) { 0 } else { r.next() as u8 });
+                }
+            }
+            _ => {
+                b.insert(i, r.next() as u8);
+            }
+        }
+    }
+}
+
+/// rand-dec <n> <seed> <fmt> <out>: random valid encodings, mutated, decoded against their type.
+pub fn cmd_rand_dec(args: &[String]) {
+    let n: u64 = args[0].parse().unwrap();
+    let seed: u64 = args[1].parse().unwrap();
+    let fmt = args[2].clone();
+    let mut w = std::io::BufWriter::new(std::fs::File::create(&args[3]).unwrap());
+    let mut r = Rng(seed.wrapping_mul(0x7654321).wrapping_add(99));
+    let cfg = GenCfg { max_depth: 3, max_len: 3, fds: fmt == "dbus", maybe: fmt == "gvariant" };
+    let mut i = 0;
+    while i < n {
+        let t = rand_type(&mut r, 0, &cfg);
+        let v = rand_value(&mut r, &t, &cfg, 0);
+        let pos = r.below(16) as usize;
+        let le = r.chance(1, 2);
+        let mut pool = FdPool::new();
+        let val = match build_value(&t, &v, &mut pool) {
+            Ok(v) => v,
+            Err(_) => continue,
+        };
+        let c = ctx(&fmt, le, pos);
+        let (mut bytes, nfds) = match zvariant::to_bytes(c, &Inner(&val)) {
+            Ok(d) => (d.bytes().to_vec(), d.fds().len()),
+            Err(_) => continue,
+        };
+        if bytes.len() > 600 {
+            continue;
+        }
+        if !r.chance(1, 10) {
+            mutate(&mut r, &mut bytes);
+        }
+        // sometimes decode against a different (random) type
+        let tt = if r.chance(1, 10) { rand_type(&mut r, 0, &cfg) } else { t.clone() };
+        let nf = if r.chance(1, 8) { r.below(3) as usize } else { nfds };
+        let case = json!({"id":i,"fmt":fmt,"T":tt,"bytes":jbytes(&bytes),"pos":pos,"le":le,"nfds":nf});
+        let o = observe_dec(&case);
+        writeln!(w, "{}", serde_json::to_string(&o).unwrap()).unwrap();
+        i += 1;
+    }
+}
